@@ -497,6 +497,10 @@ class Interp:
                     return R.scale(L.k)
                 if R.is_const():
                     return L.scale(R.k)
+            if L.is_const() and R.is_const() and op in ("<", "<=", ">", ">=", "==", "!="):
+                a, b = L.k, R.k
+                return int({"==": a == b, "!=": a != b, "<": a < b, ">": a > b,
+                            "<=": a <= b, ">=": a >= b}[op])
             if self.sym_cap is not None and op in ("<", "<=", ">", ">="):
                 # the unsaturated case: a symbolic size is below any constant limit >= sym_cap
                 if R.is_const() and not L.is_const() and R.k >= self.sym_cap:
